@@ -22,3 +22,31 @@ Theorem C07_read_consumes_an_encoding : forall f s v r,
   bytes_ok s -> decode f s = Some (v, r) -> s = encode f v ++ r /\ wt f v.
 Proof. exact decode_sound. Qed.
 Print Assumptions C07_read_consumes_an_encoding.
+
+(** State level, for the kinds that persist raw vectors: what is written for a flushed flat / IVF state
+    reads back — from a stream followed by anything — as the SAME model state, so the reloaded index
+    answers every later query and accepts every later add / removal exactly like the source. *)
+From Comet Require Import Proofs.CodecStateP.
+Theorem C07_reload_is_identity_flat : forall p bm l rest,
+  p_kind p = KFlat -> Forall raw_entry l ->
+  let s := mk_state true [] [] [l] in
+  wt (fmt_vec p) (to_val p bm s) ->
+  exists v, decode (fmt_vec p) (encode (fmt_vec p) (to_val p bm s) ++ rest) = Some (v, rest) /\ of_val p v = Some s.
+Proof.
+  intros p bm l rest Hk Hl s Hwt. exists (to_val p bm s). split.
+  - apply decode_encode. exact Hwt.
+  - apply of_to_val_flat; assumption.
+Qed.
+Print Assumptions C07_reload_is_identity_flat.
+
+Theorem C07_reload_is_identity_ivf : forall p bm tr cents lists rest,
+  p_kind p = KIVF -> (tr = false -> cents = []) -> Forall (Forall raw_entry) lists ->
+  let s := mk_state tr cents [] lists in
+  wt (fmt_vec p) (to_val p bm s) ->
+  exists v, decode (fmt_vec p) (encode (fmt_vec p) (to_val p bm s) ++ rest) = Some (v, rest) /\ of_val p v = Some s.
+Proof.
+  intros p bm tr cents lists rest Hk Hc Hl s Hwt. exists (to_val p bm s). split.
+  - apply decode_encode. exact Hwt.
+  - apply of_to_val_ivf; assumption.
+Qed.
+Print Assumptions C07_reload_is_identity_ivf.
